@@ -225,10 +225,22 @@ func genScenario(r *zsimrt.Rand, run, seed uint64, cold bool, c *corpus) *Scenar
 		nShared = r.Intn(2)
 		sc.Shape = "global-entry-points"
 	}
+	var sharedFam []string
+	famShape := focusExpr && r.Intn(3) == 0
+	if famShape {
+		// same-construct shape: 2-3 shared expressions that all exercise one construct
+		// (wildcards, ranges, lists, ...), tasks spread over them
+		sharedFam = c.family(r)
+		nShared = 2 + r.Intn(2)
+		sc.Shape = "one-construct"
+	}
 	for i := 0; i < nShared; i++ {
 		sp := genExprSpec(r, c, true)
 		if focusExpr && i == 0 && r.Intn(4) != 0 {
 			sp = ExprSpec{Kind: "parse", Query: c.rich(r), Field: fieldChoices[r.Intn(len(fieldChoices))]}
+		}
+		if sharedFam != nil {
+			sp = ExprSpec{Kind: "parse", Query: sharedFam[r.Intn(len(sharedFam))], Field: fieldChoices[r.Intn(3)]}
 		}
 		sc.Shared = append(sc.Shared, sp)
 	}
@@ -238,7 +250,7 @@ func genScenario(r *zsimrt.Rand, run, seed uint64, cold bool, c *corpus) *Scenar
 		sp := ExprSpec{Kind: "parse", Query: c.renderable(r), Field: fieldChoices[r.Intn(len(fieldChoices))], Late: true}
 		sc.Shared = append(sc.Shared, sp)
 	}
-	sc.Contend = len(sc.Shared) > 0 && (focusExpr || r.Intn(3) != 0)
+	sc.Contend = len(sc.Shared) > 0 && (focusExpr || r.Intn(3) != 0) && !famShape
 	hot := 0
 	if len(sc.Shared) > 0 && !focusExpr {
 		hot = r.Intn(len(sc.Shared))
@@ -260,6 +272,9 @@ func genScenario(r *zsimrt.Rand, run, seed uint64, cold bool, c *corpus) *Scenar
 	if focusGlobal {
 		opsBias = 5
 	}
+	if famShape {
+		opsBias = 6
+	}
 	faultPerm := []int{0, 0, 50, 200}[r.Intn(4)]
 	if !zsimrt.Instrumented {
 		faultPerm = 0 // degraded mode: no callback faults
@@ -271,10 +286,20 @@ func genScenario(r *zsimrt.Rand, run, seed uint64, cold bool, c *corpus) *Scenar
 	if focusGlobal || r.Intn(4) == 0 {
 		k := []int{1, 2, 3, 5, 8, 13, 17, 20, 33, 50}[r.Intn(10)]
 		nf := 1 + r.Intn(2)
+		var fam []string
+		if r.Intn(3) == 0 {
+			fam = c.family(r) // all hot queries exercise the same construct, with different inputs
+			if k > 5 {
+				k = 2 + r.Intn(4)
+			}
+		}
 		for i := 0; i < k; i++ {
 			q := c.query(r)
 			if r.Intn(3) != 0 {
 				q = c.renderable(r)
+			}
+			if fam != nil {
+				q = fam[r.Intn(len(fam))]
 			}
 			sc.hot = append(sc.hot, hotQuery{q, fieldChoices[r.Intn(nf*3)%len(fieldChoices)]})
 		}
@@ -283,6 +308,9 @@ func genScenario(r *zsimrt.Rand, run, seed uint64, cold bool, c *corpus) *Scenar
 		nOps := 1 + r.Intn(6)
 		if focusExpr {
 			nOps = 1 + r.Intn(3)
+		}
+		if famShape {
+			nOps = 2 + r.Intn(4)
 		}
 		if focusGlobal && len(sc.hot) >= 8 {
 			nOps = 4 + r.Intn(10)
@@ -408,12 +436,13 @@ func genExprSpec(r *zsimrt.Rand, c *corpus, renderBias bool) ExprSpec {
 }
 
 var (
-	kindsAll    = []string{KParse, KParse, KToPG, KToParam, KRender, KRenderParam, KRenderParam, KCRender, KCRenderParam, KString, KGoString, KSprint, KMarshal, KMarshalDir, KValidate, KUnmarshal, KNewDriver}
-	kindsRender = []string{KRender, KRenderParam, KRenderParam, KCRender, KCRenderParam, KToPG, KToParam, KString}
-	kindsParse  = []string{KParse, KParse, KParse, KToPG, KToParam, KUnmarshal, KValidate}
-	kindsPrint  = []string{KString, KGoString, KSprint, KMarshal, KMarshal, KMarshalDir, KValidate, KUnmarshal, KRenderParam}
-	kindsSubj   = []string{KRender, KRender, KRenderParam, KRenderParam, KCRender, KCRenderParam, KString, KGoString, KSprint, KMarshal, KMarshalDir, KValidate}
-	kindsGlobal = []string{KParse, KParse, KToPG, KToPG, KToParam, KToParam, KNewDriver, KUnmarshal}
+	kindsAll       = []string{KParse, KParse, KToPG, KToParam, KRender, KRenderParam, KRenderParam, KCRender, KCRenderParam, KString, KGoString, KSprint, KMarshal, KMarshalDir, KValidate, KUnmarshal, KNewDriver}
+	kindsRender    = []string{KRender, KRenderParam, KRenderParam, KCRender, KCRenderParam, KToPG, KToParam, KString}
+	kindsParse     = []string{KParse, KParse, KParse, KToPG, KToParam, KUnmarshal, KValidate}
+	kindsPrint     = []string{KString, KGoString, KSprint, KMarshal, KMarshal, KMarshalDir, KValidate, KUnmarshal, KRenderParam}
+	kindsSubj      = []string{KRender, KRender, KRenderParam, KRenderParam, KCRender, KCRenderParam, KString, KGoString, KSprint, KMarshal, KMarshalDir, KValidate}
+	kindsRenderish = []string{KRender, KRender, KRender, KRender, KRenderParam, KRenderParam, KRenderParam, KCRender, KCRenderParam, KString, KMarshal, KValidate}
+	kindsGlobal    = []string{KParse, KParse, KToPG, KToPG, KToParam, KToParam, KNewDriver, KUnmarshal}
 )
 
 func genOp(r *zsimrt.Rand, c *corpus, sc *Scenario, bias, faultPerm, hot int) Op {
@@ -429,8 +458,10 @@ func genOp(r *zsimrt.Rand, c *corpus, sc *Scenario, bias, faultPerm, hot int) Op
 		kinds = kindsSubj
 	case 5:
 		kinds = kindsGlobal
+	case 6:
+		kinds = kindsRenderish
 	}
-	if r.Intn(5) == 0 && bias < 4 || r.Intn(12) == 0 {
+	if r.Intn(5) == 0 && bias < 4 || r.Intn(12) == 0 && bias != 6 {
 		kinds = kindsAll
 	}
 	op := Op{Kind: kinds[r.Intn(len(kinds))], Shared: -1}
@@ -453,7 +484,7 @@ func genOp(r *zsimrt.Rand, c *corpus, sc *Scenario, bias, faultPerm, hot int) Op
 		return op
 	}
 	// operations with an expression subject
-	if len(sc.Shared) > 0 && (bias == 4 || r.Intn(5) != 0) {
+	if len(sc.Shared) > 0 && (bias == 4 || bias == 6 || r.Intn(5) != 0) {
 		if sc.Contend && (bias == 4 || r.Intn(6) != 0) {
 			op.Shared = hot
 		} else {
